@@ -40,6 +40,9 @@ type Tmpl struct {
 	Carrier    string   `json:"carrier,omitempty"`    // named | map | struct
 	CarrierPtr bool     `json:"carrierptr,omitempty"` // the struct carrier is passed by pointer
 	NoParen    bool     `json:"noparen,omitempty"`    // clause.Expr{WithoutParentheses: true}
+	// LitQ: number of '?' characters inside string literals that follow the last real placeholder
+	// (e.g. ", 'really?' AS q"): no argument is left for them, they stay part of the text
+	LitQ int `json:"litq,omitempty"`
 	// Driver: the text uses the driver's own named placeholders (":name"); the values are passed as
 	// sql.Named(...) in the order ArgOrder and must reach the driver as named arguments
 	Driver   bool     `json:"driver,omitempty"`
